@@ -11,6 +11,7 @@ if [ -z "${GOCACHE:-}" ]; then
   if [ -n "${HOME:-}" ] && [ -d "$HOME" ]; then export GOCACHE="$HOME/.cache/go-build"; else export GOCACHE="$ROOT/work/gocache"; fi
 fi
 REPO="${VERIF_REPO:-/repo}"
+if [ "${1:-}" = "replay" ] && [ -n "${2:-}" ] && [ -e "$2" ]; then set -- replay "$(readlink -f "$2")"; fi  # relative replay paths
 cd "$ROOT/harness" || exit 2
 mkdir -p "$ROOT/bin" "$ROOT/evidence" "$ROOT/replays" "$ROOT/work"
 
